@@ -45,10 +45,10 @@ theorem exec_frame (s : Shared) (t : Thread) (others : Nat) (pc : PC) (R1 R2 : N
   rw [hpc] at h1 h2
   cases hs : s.sched <;> cases pc <;>
     simp only [exec, ind, hs, finishOp, nextOp_tok, nextOp_own, nextIter_own, nextIter_tok,
-      reduceCtorEq, if_true, if_false, tok_none, tok_sE0, tok_sE1, tok_sE2, tok_sT1, tok_sT2, tok_sPush, tok_wTake, tok_wTfp, tok_wSys1, tok_wSys2, tok_wDeq1, tok_wDeq2, tok_wDeq3, tok_wDeq4, tok_wRecv, tok_wReset, tok_wEmp1, tok_wEmp2, tok_wSEmp1, tok_wSEmp2, tok_wTs1, tok_wTs2, tok_wRetake, tok_wYield, tok_wResched, tok_rWait, tok_rCount, own_none, own_sE0, own_sE1, own_sE2, own_sT1, own_sT2, own_sPush, own_wTake, own_wTfp, own_wSys1, own_wSys2, own_wDeq1, own_wDeq2, own_wDeq3, own_wDeq4, own_wRecv, own_wReset, own_wEmp1, own_wEmp2, own_wSEmp1, own_wSEmp2, own_wTs1, own_wTs2, own_wRetake, own_wYield, own_wResched, own_rWait, own_rCount, inRecvPc_none, inRecvPc_sE0, inRecvPc_sE1, inRecvPc_sE2, inRecvPc_sT1, inRecvPc_sT2, inRecvPc_sPush, inRecvPc_wTake, inRecvPc_wTfp, inRecvPc_wSys1, inRecvPc_wSys2, inRecvPc_wDeq1, inRecvPc_wDeq2, inRecvPc_wDeq3, inRecvPc_wDeq4, inRecvPc_wRecv, inRecvPc_wReset, inRecvPc_wEmp1, inRecvPc_wEmp2, inRecvPc_wSEmp1, inRecvPc_wSEmp2, inRecvPc_wTs1, inRecvPc_wTs2, inRecvPc_wRetake, inRecvPc_wYield, inRecvPc_wResched, inRecvPc_rWait, inRecvPc_rCount] at h1 h2 ⊢ <;>
+      reduceCtorEq, if_true, if_false, tok_none, tok_sE0, tok_sE1, tok_sE2, tok_sT1, tok_sT2, tok_sPush, tok_wTake, tok_wTfp, tok_wSys1, tok_wSys2, tok_wDeq1, tok_wDeq2, tok_wDeq3, tok_wDeq4, tok_wRecv, tok_wReset, tok_wEmp1, tok_wEmp2, tok_wSEmp1, tok_wSEmp2, tok_wTs1, tok_wTs2, tok_wRetake, tok_wYield, tok_wResched, tok_rWait, tok_rCount, tok_rLoad, own_none, own_sE0, own_sE1, own_sE2, own_sT1, own_sT2, own_sPush, own_wTake, own_wTfp, own_wSys1, own_wSys2, own_wDeq1, own_wDeq2, own_wDeq3, own_wDeq4, own_wRecv, own_wReset, own_wEmp1, own_wEmp2, own_wSEmp1, own_wSEmp2, own_wTs1, own_wTs2, own_wRetake, own_wYield, own_wResched, own_rWait, own_rCount, own_rLoad, inRecvPc_none, inRecvPc_sE0, inRecvPc_sE1, inRecvPc_sE2, inRecvPc_sT1, inRecvPc_sT2, inRecvPc_sPush, inRecvPc_wTake, inRecvPc_wTfp, inRecvPc_wSys1, inRecvPc_wSys2, inRecvPc_wDeq1, inRecvPc_wDeq2, inRecvPc_wDeq3, inRecvPc_wDeq4, inRecvPc_wRecv, inRecvPc_wReset, inRecvPc_wEmp1, inRecvPc_wEmp2, inRecvPc_wSEmp1, inRecvPc_wSEmp2, inRecvPc_wTs1, inRecvPc_wTs2, inRecvPc_wRetake, inRecvPc_wYield, inRecvPc_wResched, inRecvPc_rWait, inRecvPc_rCount, inRecvPc_rLoad] at h1 h2 ⊢ <;>
     (try split) <;>
     simp only [nextOp_tok, nextOp_own, nextIter_own, nextIter_tok, reduceCtorEq, if_true, if_false,
-      Nat.add_zero, Nat.zero_add, hs, hpc, tok_none, tok_sE0, tok_sE1, tok_sE2, tok_sT1, tok_sT2, tok_sPush, tok_wTake, tok_wTfp, tok_wSys1, tok_wSys2, tok_wDeq1, tok_wDeq2, tok_wDeq3, tok_wDeq4, tok_wRecv, tok_wReset, tok_wEmp1, tok_wEmp2, tok_wSEmp1, tok_wSEmp2, tok_wTs1, tok_wTs2, tok_wRetake, tok_wYield, tok_wResched, tok_rWait, tok_rCount, own_none, own_sE0, own_sE1, own_sE2, own_sT1, own_sT2, own_sPush, own_wTake, own_wTfp, own_wSys1, own_wSys2, own_wDeq1, own_wDeq2, own_wDeq3, own_wDeq4, own_wRecv, own_wReset, own_wEmp1, own_wEmp2, own_wSEmp1, own_wSEmp2, own_wTs1, own_wTs2, own_wRetake, own_wYield, own_wResched, own_rWait, own_rCount, inRecvPc_none, inRecvPc_sE0, inRecvPc_sE1, inRecvPc_sE2, inRecvPc_sT1, inRecvPc_sT2, inRecvPc_sPush, inRecvPc_wTake, inRecvPc_wTfp, inRecvPc_wSys1, inRecvPc_wSys2, inRecvPc_wDeq1, inRecvPc_wDeq2, inRecvPc_wDeq3, inRecvPc_wDeq4, inRecvPc_wRecv, inRecvPc_wReset, inRecvPc_wEmp1, inRecvPc_wEmp2, inRecvPc_wSEmp1, inRecvPc_wSEmp2, inRecvPc_wTs1, inRecvPc_wTs2, inRecvPc_wRetake, inRecvPc_wYield, inRecvPc_wResched, inRecvPc_rWait, inRecvPc_rCount] at * <;>
+      Nat.add_zero, Nat.zero_add, hs, hpc, tok_none, tok_sE0, tok_sE1, tok_sE2, tok_sT1, tok_sT2, tok_sPush, tok_wTake, tok_wTfp, tok_wSys1, tok_wSys2, tok_wDeq1, tok_wDeq2, tok_wDeq3, tok_wDeq4, tok_wRecv, tok_wReset, tok_wEmp1, tok_wEmp2, tok_wSEmp1, tok_wSEmp2, tok_wTs1, tok_wTs2, tok_wRetake, tok_wYield, tok_wResched, tok_rWait, tok_rCount, tok_rLoad, own_none, own_sE0, own_sE1, own_sE2, own_sT1, own_sT2, own_sPush, own_wTake, own_wTfp, own_wSys1, own_wSys2, own_wDeq1, own_wDeq2, own_wDeq3, own_wDeq4, own_wRecv, own_wReset, own_wEmp1, own_wEmp2, own_wSEmp1, own_wSEmp2, own_wTs1, own_wTs2, own_wRetake, own_wYield, own_wResched, own_rWait, own_rCount, own_rLoad, inRecvPc_none, inRecvPc_sE0, inRecvPc_sE1, inRecvPc_sE2, inRecvPc_sT1, inRecvPc_sT2, inRecvPc_sPush, inRecvPc_wTake, inRecvPc_wTfp, inRecvPc_wSys1, inRecvPc_wSys2, inRecvPc_wDeq1, inRecvPc_wDeq2, inRecvPc_wDeq3, inRecvPc_wDeq4, inRecvPc_wRecv, inRecvPc_wReset, inRecvPc_wEmp1, inRecvPc_wEmp2, inRecvPc_wSEmp1, inRecvPc_wSEmp2, inRecvPc_wTs1, inRecvPc_wTs2, inRecvPc_wRetake, inRecvPc_wYield, inRecvPc_wResched, inRecvPc_rWait, inRecvPc_rCount, inRecvPc_rLoad] at * <;>
     (try (refine ⟨?_, ?_, ?_⟩ <;> (try split) <;> omega))
 
 theorem step_inv (c : Cfg) (tid : Nat) (h : Inv c) : Inv (step c tid).2 := by
@@ -96,10 +96,10 @@ theorem spawn_zero (s : Shared) (progs : List (List Op)) :
   | cons p ps ih =>
     simp only [spawn]
     split
-    · obtain ⟨a, b, c, d, e⟩ := ih { s with running := false }
+    · obtain ⟨a, b, c, d, e⟩ := ih s
       refine ⟨?_, ?_, c, d, e⟩
-      · simp only [sumBy, tok_rWait, a]
-      · simp only [sumBy, own_rWait, b]
+      · simp only [sumBy, tok_rLoad, a]
+      · simp only [sumBy, own_rLoad, b]
     · obtain ⟨a, b, c, d, e⟩ := ih s
       refine ⟨?_, ?_, c, d, e⟩
       · simp only [sumBy, nextOp_tok, a]
@@ -141,9 +141,9 @@ example : handlersRunning (run (init 2 [[.tell 1], [.work]]) [0,0,0,0,0,0,1,1,1,
 def resetStep (c : Cfg) : Cfg := { c with sh := { c.sh with sched := .idle } }
 
 theorem old_restart_reset_breaks :
-    let c0 := run (init 2 [[.tell 1], [.restart], [.work], [.work]]) [1,0,0,0,0,0,0,2,2,2,2,2,2,2,2,1]
+    let c0 := run (init 2 [[.tell 1], [.restart], [.work], [.work]]) [1,1,0,0,0,0,0,0,2,2,2,2,2,2,2,2]
     let c1 := resetStep c0            -- the trailing schedState.reset() of the old restartSubtree
-    let c2 := run c1 [1,1,1,1,1,1,3,3,3,3,3,3,3,3]
+    let c2 := run c1 [1,1,1,1,1,1,1,3,3,3,3,3,3,3,3]
     handlersRunning c2 = 2 := by decide
 
 end GoaktVerif.C01
